@@ -249,6 +249,56 @@ def policy_peer_has_no_failure():
     return res
 
 
+def policy_rejects_failed_extra():
+    """lift of 'permits': the real Policy.evaluate of every built-in policy FAILS a peer that is configured per the policy but additionally offers one
+    algorithm the table rates as a failure (every such name, every category, first and last position)."""
+    t0 = time.time()
+    res = _res('builtin-policy-rejects-a-peer-with-an-extra-failed-algorithm')
+    MP = H.mods()[1]
+    from props.c06 import make_kex
+    db = MP.ssh2_kexdb.SSH2_KexDB.MASTER_DB
+    pol = MP.builtin_policies.BUILTIN_POLICIES
+    failed = {c: [n for n, row in db[c].items() if len(row) > 1 and row[1]] for c in ('kex', 'key', 'enc', 'mac')}
+    for name, p in pol.items():
+        P = MP.policy.Policy.load_builtin_policy(name)
+        if P is None:
+            res['status'] = 'inconclusive'
+            res['error'] = 'built-in policy %r does not load' % name
+            break
+        base = {'kex': list(p['kex'] or []), 'key': list(p['host_keys'] or []), 'enc': list(p['ciphers'] or []), 'mac': list(p['macs'] or [])}
+        hk = {k: (v['hostkey_size'], v.get('ca_key_type', ''), v.get('ca_key_size', 0)) for k, v in (p['hostkey_sizes'] or {}).items()}
+        dh = dict(p['dh_modulus_sizes'] or {})
+        banner = MP.banner.Banner((2, 0), 'OpenSSH_9.9', None, True)
+        # reachability witness: the unmodified peer passes
+        k0 = make_kex(MP, base, host_keys=hk, dh=dh)
+        ok0 = P.evaluate(banner, k0)[0]
+        res['asserts'] += 1
+        if not ok0:
+            _viol(res, 'policy-conformant-peer-fails-its-own-policy', name, {'policy': name})
+            continue
+        for c in ('kex', 'key', 'enc', 'mac'):
+            if p[{'kex': 'kex', 'key': 'host_keys', 'enc': 'ciphers', 'mac': 'macs'}[c]] is None:
+                continue        # the policy does not constrain this category
+            for x in failed[c]:
+                if x in base[c] or (c == 'key' and x in (p['optional_host_keys'] or [])):
+                    continue
+                for front in (False, True):
+                    L = dict(base)
+                    L[c] = ([x] + base[c]) if front else (base[c] + [x])
+                    k1 = make_kex(MP, L, host_keys=hk, dh=dh)
+                    passed = P.evaluate(banner, k1)[0]
+                    res['paths'] += 1
+                    if passed:
+                        _viol(res, 'builtin-policy-permits-a-failed-algorithm', '%s:%s' % (c, x), {'policy': name, 'category': c, 'extra': x, 'front': front})
+                        break
+    res['decisions'] = res['paths']
+    res['xval'] = res['paths']
+    res['sample'] = {'inputs': {'evaluations': res['paths']}, 'observation': 'every peer with an extra failed algorithm fails the policy'}
+    res['note'] = 'finite exhaustive concrete run of the real Policy.evaluate per (policy, category, failed name, position)'
+    res['wall_s'] = round(time.time() - t0, 3)
+    return res
+
+
 def _wellformed_blob(kt):
     """public key blob of host-key type kt as OpenSSH encodes it (PROTOCOL, PROTOCOL.certkeys, PROTOCOL.u2f), good-sized; None if the type is unknown here"""
     import struct
@@ -338,7 +388,7 @@ def probe_table_vs_policies():
 
 
 def tasks(tier):
-    return [cross_references, policies_vs_ratings, branded_primitives, row_shapes, policy_peer_has_no_failure, probe_table_vs_policies]
+    return [cross_references, policies_vs_ratings, branded_primitives, row_shapes, policy_peer_has_no_failure, policy_rejects_failed_extra, probe_table_vs_policies]
 
 
 def harness_by_name(name, params):
